@@ -444,7 +444,9 @@ def setup_apply(P, W):
         arr = z3.Array("matrix", z3.IntSort(), z3.ArraySort(z3.IntSort(), z3.RealSort()))
         st.env["matrix"] = E.Mat(arr, r, c)
         # precondition of apply (the callers' obligation): the matrix maps the old control points to those of the new knot vector
-        st.assume(z3.And(r == new.fields["npts"].z, c == st.env["self"].fields[KVF].fields["npts"].z))
+        # (a curve without control points and weights ignores the matrix: no requirement then)
+        if P or W:
+            st.assume(z3.And(r == new.fields["npts"].z, c == st.env["self"].fields[KVF].fields["npts"].z))
     return setup
 
 
@@ -469,3 +471,385 @@ def apply_contract(P, W):
 
 
 ALL += [(apply_contract(P, W), "curves", "BaseCurve.apply", None) for P in (0, 1) for W in (0, 1)]
+
+
+# ---- knotvector.setter -------------------------------------------------------------------------------------------------------
+def kvsetter_contract(P, W):
+    return Contract(
+        "curves.BaseCurve.knotvector.setter[P=%d,W=%d]" % (P, W), setup=lambda eng, st: (curve_state(P, W)(eng, st), st.env.__setitem__("value", new_kvobj(st, "new"))),
+        params={"self": "obj:BaseCurve", "value": "obj:KnotVector"}, spec=CSPEC, calls=UPDATE_CALLS,
+        ensures=["INV(self)", "npts(self) == kv_npts(value)", "deg(self) == kv_deg(value)",
+                 "iff(is_none(P(self)), is_none(old(P(self))))", "iff(is_none(W(self)), is_none(old(W(self))))"],
+        raises={"ValueError": None} if (P or W) else {}, exc_ensures=ATOMIC, canary="npts(self) == kv_npts(value) + 1")
+
+
+ALL += [(kvsetter_contract(P, W), "curves", "BaseCurve.knotvector", "knotvector.setter") for P in (0, 1) for W in (0, 1)]
+
+
+# ---- the public mutators of Curve ------------------------------------------------------------------------------------------------
+ADDED = []      # ghost: (old knot vector, the sequence added / removed, new knot vector)
+
+
+def h_kv_add(eng, st, args, kw, node, exits):
+    """knotvector + nodes (KnotVector.__add__ -> ImmutableKnotVector.__add__, contract kv.ADD): ValueError for a node outside the interval or an
+    invalid result; otherwise a NEW knot vector with len + len(nodes) values.  Its degree is inferred from the end multiplicity, so it may DIFFER
+    from the old degree (copies of the end knots); npts follows from the length."""
+    kv, nodes = args
+    if not isinstance(nodes, Seq):
+        raise E.Unsupported("knotvector + %r" % (nodes,))
+    if not kw.get("never_refused"):
+        eng.raise_exc(st, "ValueError", E.fresh("sum_refused", z3.BoolSort()), node.lineno, exits)
+    d = fresh_int("sum_deg")
+    n = fresh_int("sum_npts")
+    st.assume(n + d + 1 == kv.fields["npts"].z + kv.fields["degree"].z + 1 + nodes.n)
+    new = new_kvobj(st, "sum", n, d)
+    ADDED.append(("add", kv, nodes, new))
+    return new
+
+
+def h_kv_sub(eng, st, args, kw, node, exits):
+    """knotvector - nodes: ValueError (a node that is not a knot, invalid result) or a NEW knot vector with len - len(nodes) values (degree inferred)."""
+    kv, nodes = args
+    if not isinstance(nodes, Seq):
+        raise E.Unsupported("knotvector - %r" % (nodes,))
+    eng.raise_exc(st, "ValueError", E.fresh("difference_refused", z3.BoolSort()), node.lineno, exits)
+    d = fresh_int("dif_deg")
+    n = fresh_int("dif_npts")
+    st.assume(n + d + 1 == kv.fields["npts"].z + kv.fields["degree"].z + 1 - nodes.n)
+    new = new_kvobj(st, "dif", n, d)
+    ADDED.append(("sub", kv, nodes, new))
+    return new
+
+
+def h_op_knot_insert(eng, st, args, kw, node, exits):
+    """heavy.Operations.knot_insert(oldvector, nodes) by its shape contract (values: C04, engine S per shape): for a LEGAL insertion (the sum
+    oldvector + nodes is a knot vector of the same degree: obligation at the call site) the matrix has npts + len(nodes) rows and npts columns."""
+    vec, nodes = args
+    kv = kv_of_vector(vec)
+    rec = [r for r in ADDED if r[0] == "add" and r[1] is kv and r[2] is nodes]
+    if not rec:
+        raise E.Unsupported("Operations.knot_insert on nodes whose sum with the vector was never formed")
+    new = rec[-1][3]
+    eng.vc(st, new.fields["degree"].z == kv.fields["degree"].z, "call:Operations.knot_insert:legal-insertion(same degree)@L%d" % node.lineno, node.lineno)
+    r, c = fresh_int("T_rows"), fresh_int("T_cols")
+    st.assume(z3.And(r == kv.fields["npts"].z + nodes.n, c == kv.fields["npts"].z))
+    return E.Mat(z3.Array("T!%d" % next(E._fresh), z3.IntSort(), z3.ArraySort(z3.IntSort(), z3.RealSort())), r, c)
+
+
+def h_apply_call(eng, st, args, kw, node, exits):
+    """self.apply(newknotvector, matrix) by the contract proved as apply_contract; its precondition is an obligation of the caller."""
+    c, newv, m = args
+    kv = h_KnotVector(eng, st, [newv], kw, node, exits)
+    if not isinstance(m, E.Mat):
+        raise E.Unsupported("apply with %r" % (m,))
+    if isinstance(c.fields[PF], Seq) or isinstance(c.fields[WF_], Seq):
+        eng.vc(st, m.r == kv.fields["npts"].z, "call:apply:rows(matrix)==npts(newknotvector)@L%d" % node.lineno, node.lineno)
+        eng.vc(st, m.c == c.fields[KVF].fields["npts"].z, "call:apply:cols(matrix)==npts(self)@L%d" % node.lineno, node.lineno)
+    if isinstance(c.fields[PF], Seq) and isinstance(c.fields[WF_], Seq):
+        eng.raise_exc(st, "ZeroDivisionError", E.fresh("zero_control_weight", z3.BoolSort()), node.lineno, exits)
+    c.fields[KVF] = kv
+    for k, tag in ((PF, "applied_points"), (WF_, "applied_weights")):
+        if isinstance(c.fields[k], Seq):
+            s = E.fresh_seq(tag)
+            st.assume(s.n == kv.fields["npts"].z)
+            c.fields[k] = s
+    return NoneV()
+
+
+MUT_CALLS = dict(UPDATE_CALLS)
+MUT_CALLS.update({
+    "func:tuple": CallSpec(h_tuple_any), "binop:Add:AbsKnotVector": CallSpec(h_kv_add), "binop:Sub:AbsKnotVector": CallSpec(h_kv_sub),
+    "call:heavy.Operations.knot_insert": CallSpec(h_op_knot_insert), "method:BaseCurve.apply": CallSpec(h_apply_call),
+    "setattr:BaseCurve.knotvector": CallSpec(h_set_kv),
+})
+MUT_POST = ["INV(self)", "iff(is_none(P(self)), is_none(old(P(self))))", "iff(is_none(W(self)), is_none(old(W(self))))"]
+
+
+def knot_insert_contract(P, W):
+    return Contract(
+        "curves.Curve.knot_insert[P=%d,W=%d]" % (P, W), setup=curve_state(P, W), params={"self": "obj:BaseCurve", "nodes": "seq"},
+        spec=CSPEC, calls=MUT_CALLS,
+        ensures=MUT_POST + ["npts(self) == old(npts(self)) + len(nodes)", "deg(self) == old(deg(self))"],
+        raises=dict({"ValueError": None}, **({"ZeroDivisionError": None} if (P and W) else {})), exc_ensures=ATOMIC,
+        covers=["len(nodes) == 2"], canary="npts(self) == old(npts(self))")
+
+
+ALL += [(knot_insert_contract(P, W), "curves", "Curve.knot_insert", None) for P in (0, 1) for W in (0, 1)]
+
+
+# ======================================================================================
+# Native search for a failing input (used only to give a failed obligation of the contracts above a replayable input)
+# ======================================================================================
+def _starts(P, W):
+    from fractions import Fraction as F
+    vecs = [[F(0), F(1), F(3)], [F(0), F(0), F(3), F(3)], [F(0), F(0), F(1), F(3), F(3)], [F(0)] * 3 + [F(1), F(1)] + [F(3)] * 3, [F(0)] * 3 + [F(3)] * 3]
+    out = []
+    for U in vecs:
+        p = U.count(U[0]) - 1
+        n = len(U) - p - 1
+        pts = [F((-2) ** i, i + 1) for i in range(n)] if P else None
+        for ws in ([[F(i + 1) for i in range(n)], [F(1)] + [F(0)] * (1 if n > 2 else 0) + [F(1)] * (n - 1 - (1 if n > 2 else 0))] if W else [None]):
+            out.append((U, pts, ws))
+    return out
+
+
+def _cstate(c):
+    return (tuple(c.knotvector), c.ctrlpoints, c.weights)
+
+
+def _cinv(c):
+    n = len(tuple(c.knotvector)) - c.degree - 1
+    if c.npts != n or (c.ctrlpoints is not None and len(c.ctrlpoints) != n) or (c.weights is not None and len(c.weights) != n):
+        return "INV broken: npts=%s len(knotvector)-degree-1=%s len(ctrlpoints)=%s len(weights)=%s" % (
+            c.npts, n, None if c.ctrlpoints is None else len(c.ctrlpoints), None if c.weights is None else len(c.weights))
+    return None
+
+
+def _calls(method):
+    from fractions import Fraction as F
+    from compmec.nurbs import KnotVector
+    if method == "knot_insert":
+        for nodes in ([F(1)], [F(1)] * 4, [F(0), F(3)], [F(0), F(0), F(3), F(3)], [F(9)], [F(1, 2), F(3, 2)], [F(0)], []):
+            yield repr(nodes), (lambda c, nodes=nodes: c.knot_insert(nodes)), (lambda b, c, nodes=nodes: c.npts == b[0] + len(nodes) and c.degree == b[1])
+    elif method == "knot_remove":
+        for nodes in ([F(1)], [F(1), F(1)], [F(0)], [F(5, 7)], [F(0), F(3)]):
+            for tol in (1e-9, None):
+                yield repr((nodes, tol)), (lambda c, nodes=nodes, tol=tol: c.knot_remove(nodes, tol)), (lambda b, c, nodes=nodes: c.npts + c.degree == b[0] + b[1] - len(nodes))
+    elif method == "degree_increase":
+        for t in (1, 2, 0, -1):
+            yield repr(t), (lambda c, t=t: c.degree_increase(t)), (lambda b, c, t=t: c.degree == b[1] + t)
+    elif method == "degree_decrease":
+        for t, tol in ((1, 1e-9), (1, None), (2, None), (5, None), (0, None)):
+            yield repr((t, tol)), (lambda c, t=t, tol=tol: c.degree_decrease(t, tol)), (lambda b, c, t=t: c.degree == b[1] - t)
+    elif method == "degree":
+        for d in (0, 1, 2, 3, 4, -1):
+            yield repr(d), (lambda c, d=d: setattr(c, "degree", d)), (lambda b, c, d=d: c.degree == d)
+    elif method in ("knotvector", "update"):
+        for V in ([F(0), F(0), F(3), F(3)], [F(0), F(0), F(2), F(3), F(3)], [F(0)] * 3 + [F(3)] * 3, [F(0), F(0), F(5), F(5)], [F(0), F(1), F(2), F(3)]):
+            f = (lambda c, V=V: setattr(c, "knotvector", V)) if method == "knotvector" else (lambda c, V=V: c.update(V))
+            yield repr(V), f, (lambda b, c, V=V: tuple(c.knotvector) == tuple(V))
+            if method == "update":
+                yield repr((V, None)), (lambda c, V=V: c.update(V, None)), (lambda b, c, V=V: tuple(c.knotvector) == tuple(V))
+    elif method == "ctrlpoints":
+        for k in (0, 1, -1):
+            yield "npts%+d points" % k, (lambda c, k=k: setattr(c, "ctrlpoints", [F(7)] * (c.npts + k))), (lambda b, c: len(c.ctrlpoints) == c.npts)
+        yield "None", (lambda c: setattr(c, "ctrlpoints", None)), (lambda b, c: c.ctrlpoints is None)
+    elif method == "weights":
+        for k in (0, 1, -1):
+            yield "npts%+d weights" % k, (lambda c, k=k: setattr(c, "weights", [F(2)] * (c.npts + k))), (lambda b, c: len(c.weights) == c.npts)
+        yield "None", (lambda c: setattr(c, "weights", None)), (lambda b, c: c.weights is None)
+    elif method == "apply":
+        from compmec.nurbs import heavy
+        for nodes in ([F(1)], [F(2), F(2)], [F(1, 2), F(5, 2)]):
+            def f(c, nodes=nodes):
+                old = tuple(c.knotvector)
+                new = tuple(c.knotvector + nodes)
+                c.apply(new, heavy.Operations.knot_insert(old, tuple(nodes)))
+            yield "insertion matrix of %r" % (nodes,), f, (lambda b, c, nodes=nodes: c.npts == b[0] + len(nodes))
+
+
+def concrete_search(method, P, W, allowed):
+    """-> witness dict of the first real run that breaks 'INV after, unchanged on a raise, only the allowed exception classes', or None."""
+    def search():
+        from compmec.nurbs import Curve
+        for si, (U, pts, ws) in enumerate(_starts(P, W)):
+            for label, call, post in _calls(method):
+                try:
+                    c = Curve(list(U), None if pts is None else list(pts), None if ws is None else list(ws))
+                except Exception:
+                    continue
+                before, b = _cstate(c), (c.npts, c.degree)
+                try:
+                    call(c)
+                    raised = None
+                except Exception as e:
+                    raised = type(e).__name__
+                msg = None
+                if raised is not None and _cstate(c) != before:
+                    msg = "raised %s and changed the curve" % raised
+                elif raised is not None and raised not in allowed:
+                    msg = "raised %s (allowed: %s)" % (raised, sorted(allowed))
+                elif raised is None and _cinv(c):
+                    msg = _cinv(c)
+                elif raised is None and not post(b, c):
+                    msg = "postcondition of %s fails: npts %s -> %s, degree %s -> %s" % (method, b[0], c.npts, b[1], c.degree)
+                if msg:
+                    return dict(kind="v.concrete", method=method, P=P, W=W, start=si, call=label, allowed=sorted(allowed), observed=msg,
+                                U=[str(x) for x in U], ctrlpoints=None if pts is None else [str(x) for x in pts], weights=None if ws is None else [str(x) for x in ws])
+        return None
+    return search
+
+
+def replay_concrete(w):
+    """Re-run one recorded input of concrete_search on the real code."""
+    from compmec.nurbs import Curve
+    U, pts, ws = _starts(w["P"], w["W"])[w["start"]]
+    for label, call, post in _calls(w["method"]):
+        if label != w["call"]:
+            continue
+        c = Curve(list(U), None if pts is None else list(pts), None if ws is None else list(ws))
+        before, b = _cstate(c), (c.npts, c.degree)
+        try:
+            call(c)
+            raised = None
+        except Exception as e:
+            raised = type(e).__name__
+        bad = (raised is not None and (_cstate(c) != before or raised not in w["allowed"])) or (raised is None and (bool(_cinv(c)) or not post(b, c)))
+        return bad, "INV after the call; unchanged and one of %s on a raise" % w["allowed"], dict(raised=raised, before=before, after=_cstate(c), inv=_cinv(c))
+    return False, "", "recorded call not found"
+
+
+def _attach(c, method, P, W):
+    c.tag = c.name[c.name.index("["):] if "[" in c.name else ""
+    c.concrete = concrete_search(method, P, W, set(c.raises))
+    return c
+
+
+import re as _re
+for _c, _m, _q, _v in ALL:
+    mm = _re.search(r"P=(\d),W=(\d)", _c.name)
+    if mm and "eval" not in _c.name:
+        _attach(_c, (_v or _q).split(".")[-2] if _v else _q.split(".")[-1], int(mm.group(1)), int(mm.group(2)))
+
+
+# ---- knot_remove, degree_increase, degree_decrease, degree.setter ------------------------------------------------------------------
+def h_knots_ghost(eng, st, a, kw, node, exits):
+    """knotvector.knots: the K >= 2 distinct knot values (K is a ghost attribute of the abstract knot vector)."""
+    kv = a[0]
+    if "knots_seq" not in kv.fields:
+        k = E.fresh_seq("knots")
+        st.assume(k.n >= 2)
+        kv.fields["knots_seq"] = k
+    return kv.fields["knots_seq"]
+
+
+def h_kv_add_elev(eng, st, args, kw, node, exits):
+    """As h_kv_add; in addition, for nodes == t * knotvector.knots (t >= 1 further copies of EVERY knot) the inferred degree is degree + t:
+    both end knots then occur degree + 1 + t times (constructor contract NEW_NONE: degree = end multiplicity - 1)."""
+    kv, nodes = args
+    o = getattr(nodes, "origin", None)
+    elev = o is not None and o[0] == "rep" and o[1] is kv.fields.get("knots_seq")
+    # copies of the knots lie in the interval and keep every interior multiplicity <= new degree + 1: such a sum is never refused
+    new = h_kv_add(eng, st, args, {"never_refused": True} if elev else {}, node, exits)
+    if elev:
+        st.assume(z3.Implies(o[2].z >= 1, new.fields["degree"].z == kv.fields["degree"].z + o[2].z))
+    return new
+
+
+def h_op_degree_increase(eng, st, args, kw, node, exits):
+    """heavy.Operations.degree_increase(vector, t) by its shape contract (values: C06, engine S per shape): npts + t * (K - 1) rows
+    (one more control point per span and elevation), npts columns."""
+    vec, t = args
+    kv = kv_of_vector(vec)
+    K = h_knots_ghost(eng, st, [kv], kw, node, exits).n
+    r, c = fresh_int("E_rows"), fresh_int("E_cols")
+    st.assume(z3.And(r == kv.fields["npts"].z + t.z * (K - 1), c == kv.fields["npts"].z))
+    return E.Mat(z3.Array("E!%d" % next(E._fresh), z3.IntSort(), z3.ArraySort(z3.IntSort(), z3.RealSort())), r, c)
+
+
+def h_copy_kv(eng, st, args, kw, node, exits):
+    """copy(knotvector): a NEW mutable knot vector with the same content."""
+    kv = args[0]
+    return Obj("MutKnotVector", {"npts": kv.fields["npts"], "degree": kv.fields["degree"]})
+
+
+def h_mut_degree_set(eng, st, args, kw, node, exits):
+    """knotvector.degree = d (KnotVector.degree.setter, contract in facade.py): ValueError (d < 0, or a knot that cannot lose that many copies) with the
+    object unchanged, or the object now has degree d and some number of points npts' >= d + 1."""
+    kv, d = args
+    eng.raise_exc(st, "ValueError", z3.Or(d.z < 0, E.fresh("degree_refused", z3.BoolSort())), node.lineno, exits)
+    n = fresh_int("npts_after_degree_change")
+    st.assume(n >= d.z + 1)
+    kv.fields["degree"], kv.fields["npts"] = Num(d.z, True), Num(n, True)
+    return NoneV()
+
+
+def h_KnotVector2(eng, st, args, kw, node, exits):
+    v = args[0]
+    if isinstance(v, Obj) and v.cls == "MutKnotVector":          # the value it has NOW
+        return new_kvobj(st, "snap", v.fields["npts"].z, v.fields["degree"].z)
+    return h_KnotVector(eng, st, args, kw, node, exits)
+
+
+def h_update_call2(eng, st, args, kw, node, exits):
+    a = list(args)
+    a[1] = h_KnotVector2(eng, st, [a[1]], kw, node, exits)
+    return h_update_call(eng, st, a, kw, node, exits)
+
+
+def h_method(name, P_and_W_only_zero_division=True):
+    def h(eng, st, args, kw, node, exits):
+        """self.degree_increase(t) / self.degree_decrease(t) by the contracts proved below: ValueError (ZeroDivisionError for weighted curves in
+        degree_increase) with the curve unchanged, otherwise INV and degree +- t."""
+        c, t = args[0], args[1]
+        eng.raise_exc(st, "ValueError", E.fresh(name + "_refused", z3.BoolSort()), node.lineno, exits)
+        if name == "degree_increase" and isinstance(c.fields[PF], Seq) and isinstance(c.fields[WF_], Seq):
+            eng.raise_exc(st, "ZeroDivisionError", E.fresh("zero_control_weight", z3.BoolSort()), node.lineno, exits)
+        old = c.fields[KVF]
+        d = old.fields["degree"].z + (t.z if name == "degree_increase" else -t.z)
+        n = fresh_int("npts_after_" + name)
+        kv = new_kvobj(st, name, n, d)
+        c.fields[KVF] = kv
+        for k, tag in ((PF, "points"), (WF_, "weights")):
+            if isinstance(c.fields[k], Seq):
+                s = E.fresh_seq(tag)
+                st.assume(s.n == n)
+                c.fields[k] = s
+        return NoneV()
+    return h
+
+
+MUT2_CALLS = dict(MUT_CALLS)
+MUT2_CALLS.update({
+    "getattr:AbsKnotVector.knots": CallSpec(h_knots_ghost), "binop:Add:AbsKnotVector": CallSpec(h_kv_add_elev),
+    "call:heavy.Operations.degree_increase": CallSpec(h_op_degree_increase),
+    "func:copy": CallSpec(h_copy_kv), "getattr:MutKnotVector.degree": CallSpec(lambda eng, st, a, kw, node, exits: a[0].fields["degree"]),
+    "setattr:MutKnotVector.degree": CallSpec(h_mut_degree_set), "getattr:MutKnotVector.knots": CallSpec(h_knots_abs),
+    "method:BaseCurve.update": CallSpec(h_update_call2),
+    "method:BaseCurve.degree_increase": CallSpec(h_method("degree_increase")), "method:BaseCurve.degree_decrease": CallSpec(h_method("degree_decrease")),
+})
+FLOAT_LOOP = {0: dict(invariant=["0 <= it0 and it0 <= len_it0"], decreases="len_it0 - it0")}
+
+
+def knot_remove_contract(P, W, tol):
+    return Contract(
+        "curves.Curve.knot_remove[P=%d,W=%d,tolerance=%s]" % (P, W, tol), setup=curve_state(P, W),
+        params={"self": "obj:BaseCurve", "nodes": "seq", "tolerance": tol}, spec=CSPEC, calls=MUT2_CALLS, loops=FLOAT_LOOP,
+        ensures=MUT_POST + ["npts(self) + deg(self) == old(npts(self)) + old(deg(self)) - len(nodes)"],
+        raises={"ValueError": None}, exc_ensures=ATOMIC, covers=["len(nodes) == 1"], canary="npts(self) + deg(self) == old(npts(self)) + old(deg(self))")
+
+
+def degree_increase_contract(P, W):
+    return Contract(
+        "curves.Curve.degree_increase[P=%d,W=%d]" % (P, W), setup=curve_state(P, W), params={"self": "obj:BaseCurve", "times": "int"},
+        spec=CSPEC, calls=MUT2_CALLS, ensures=MUT_POST + ["deg(self) == old(deg(self)) + times", "times >= 1"],
+        raises=dict({"ValueError": "times <= 0"}, **({"ZeroDivisionError": None} if (P and W) else {})), exc_ensures=ATOMIC,
+        covers=["times == 3"], canary="deg(self) == old(deg(self))")
+
+
+def degree_decrease_contract(P, W, tol):
+    return Contract(
+        "curves.Curve.degree_decrease[P=%d,W=%d,tolerance=%s]" % (P, W, tol), setup=curve_state(P, W),
+        params={"self": "obj:BaseCurve", "times": "int", "tolerance": tol}, spec=CSPEC, calls=MUT2_CALLS,
+        ensures=MUT_POST + ["deg(self) == old(deg(self)) - times", "times >= 1"],
+        raises={"ValueError": None, "AssertionError": "tolerance < 0"} if tol == "real" else {"ValueError": None}, exc_ensures=ATOMIC,
+        covers=["times == 2"], canary="deg(self) == old(deg(self))")
+
+
+def degree_setter_contract(P, W):
+    return Contract(
+        "curves.BaseCurve.degree.setter[P=%d,W=%d]" % (P, W), setup=curve_state(P, W), params={"self": "obj:BaseCurve", "value": "int"},
+        spec=CSPEC, calls=MUT2_CALLS, ensures=MUT_POST + ["deg(self) == value"],
+        raises=dict({"ValueError": None}, **({"ZeroDivisionError": None} if (P and W) else {})), exc_ensures=ATOMIC,
+        covers=["value == 3"], canary="deg(self) == value + 1")
+
+
+_new = []
+_new += [(knot_remove_contract(P, W, tol), "curves", "Curve.knot_remove", None) for P in (0, 1) for W in (0, 1) for tol in ("real", "none")]
+_new += [(degree_increase_contract(P, W), "curves", "Curve.degree_increase", None) for P in (0, 1) for W in (0, 1)]
+_new += [(degree_decrease_contract(P, W, tol), "curves", "Curve.degree_decrease", None) for P in (0, 1) for W in (0, 1) for tol in ("real", "none")]
+_new += [(degree_setter_contract(P, W), "curves", "BaseCurve.degree", "degree.setter") for P in (0, 1) for W in (0, 1)]
+for _c, _m, _q, _v in _new:
+    mm = _re.search(r"P=(\d),W=(\d)", _c.name)
+    _attach(_c, (_v or _q).split(".")[-2] if _v else _q.split(".")[-1], int(mm.group(1)), int(mm.group(2)))
+ALL += _new
